@@ -1,4 +1,353 @@
-import MellonProofs.LinalgProofs
-import MellonModel.Conditional
+/-
+  C01 — Out-of-sample prediction is the exact GP conditional mean.
+  Property theorems only.  Everything is about the model (`MellonModel/Conditional.lean`) at α = ℝ,
+  for all sizes `n m d c q`, all data, all kernel expressions, all noise forms.
+-/
+import MellonProofs.ConditionalLemmas
+
+open Matrix
+
 namespace Mellon.C01
+open Mellon
+
+variable {n m d c q : Nat}
+
+/-! ### the regularised system of the full GP -/
+
+/-- The matrix `K + N` whose Cholesky factor `_FullConditional` computes when no factor is passed:
+    `N = jitter·I` when the values are the mean, otherwise the noise of `sigma` / `y_cov_factor`
+    with its diagonal floored at `jitter`. -/
+noncomputable def fullSystem (cov : Cov ℝ) (x : Mat ℝ n d) (sigma : Sigma ℝ n) (jitter : ℝ)
+    (ycf : Option (AnyMat ℝ)) (yIsMean : Bool) : Except CondErr (Mat ℝ n n) :=
+  if yIsMean then addVariance (gram cov x x) Option.none jitter
+  else
+    match sigmaToYCovFactor sigma ycf with
+    | .error e => .error e
+    | .ok F => addVariance (gram cov x x) (some F) jitter
+
+theorem condL_none_spec {cov : Cov ℝ} {x : Mat ℝ n d} {sigma : Sigma ℝ n} {jitter : ℝ}
+    {ycf : Option (AnyMat ℝ)} {yIsMean : Bool} {L : Mat ℝ n n} {s' : Sigma ℝ n}
+    {y' : Option (AnyMat ℝ)}
+    (h : condL cov x Option.none sigma jitter ycf yIsMean = .ok (L, s', y')) :
+    ∃ K' : Mat ℝ n n, fullSystem cov x sigma jitter ycf yIsMean = .ok K' ∧ IsCholOf L K'
+      ∧ (toM K').IsSymm := by
+  unfold condL at h
+  simp only at h
+  unfold fullSystem
+  by_cases hm : yIsMean
+  · simp only [hm, if_true] at h ⊢
+    split at h
+    · rename_i L' hL'
+      have hLL : L' = L := by
+        have := Except.ok.inj h; exact (Prod.mk.inj this).1
+      subst hLL
+      obtain ⟨K', hK', hchol⟩ := getL_spec hL'
+      exact ⟨K', hK', hchol, addVariance_symm cov x jitter _ hK'⟩
+    · cases h
+  · simp only [hm, if_false, Bool.false_eq_true] at h ⊢
+    split at h
+    · cases h
+    · rename_i F hF
+      rw [hF]
+      simp only
+      split at h
+      · rename_i L' hL'
+        have hLL : L' = L := by
+          have := Except.ok.inj h; exact (Prod.mk.inj this).1
+        subst hLL
+        obtain ⟨K', hK', hchol⟩ := getL_spec hL'
+        exact ⟨K', hK', hchol, addVariance_symm cov x jitter _ hK'⟩
+      · cases h
+
+/-- **Full GP.** When `_FullConditional` is built without a precomputed factor, its weights solve
+    the regularised normal equations `(K + N) · W = Y − mu` (one column per value column). -/
+theorem full_weights_solve {cov : Cov ℝ} {x : Mat ℝ n d} {y : Mat ℝ n c} {mu : ℝ} {sigma : Sigma ℝ n}
+    {jitter : ℝ} {ycf : Option (AnyMat ℝ)} {yIsMean withUnc : Bool} {s : CondState ℝ n d c}
+    (h : fullCondInit cov x y mu Option.none sigma jitter ycf yIsMean withUnc = .ok s) :
+    ∃ K' : Mat ℝ n n, fullSystem cov x sigma jitter ycf yIsMean = .ok K'
+      ∧ toM K' * toM s.weights = toM (residual y mu)
+      ∧ s.xb = x ∧ s.mu = mu ∧ s.cov = cov := by
+  unfold fullCondInit at h
+  split at h
+  · cases h
+  · rename_i L s' y' hc
+    obtain ⟨K', hK', hchol, hsym⟩ := condL_none_spec hc
+    have hw : toM K' * toM (choSolveM L (residual y mu)) = toM (residual y mu) :=
+      choSolveM_mul hchol hsym _
+    refine ⟨K', hK', ?_⟩
+    simp only at h
+    split at h
+    · have hs := Except.ok.inj h; subst hs; exact ⟨hw, rfl, rfl, rfl⟩
+    · split at h
+      · cases h
+      · have hs := Except.ok.inj h; subst hs; exact ⟨hw, rfl, rfl, rfl⟩
+
+/-- With a precomputed factor `L` (lower triangular, non-zero diagonal) the weights solve
+    `L Lᵀ · W = Y − mu` — the factor is used as given. -/
+theorem full_weights_solve_given {cov : Cov ℝ} {x : Mat ℝ n d} {y : Mat ℝ n c} {mu : ℝ}
+    {L : Mat ℝ n n} (hL : LowerNonsing L) {sigma : Sigma ℝ n} {jitter : ℝ} {ycf : Option (AnyMat ℝ)}
+    {yIsMean : Bool} {s : CondState ℝ n d c}
+    (h : fullCondInit cov x y mu (some L) sigma jitter ycf yIsMean false = .ok s) :
+    toM L * (toM L)ᵀ * toM s.weights = toM (residual y mu) := by
+  unfold fullCondInit condL at h
+  simp only [Bool.not_false, if_true] at h
+  have hs := Except.ok.inj h; subst hs
+  simp only
+  unfold choSolveM
+  rw [Matrix.mul_assoc, solveUpperTM_mul hL, solveLowerM_mul hL]
+
+/-! ### noise forms -/
+
+/-- Values are the mean: `N = jitter · I`. -/
+theorem noise_mean (cov : Cov ℝ) (x : Mat ℝ n d) (sigma : Sigma ℝ n) (jitter : ℝ)
+    (ycf : Option (AnyMat ℝ)) :
+    ∃ K', fullSystem cov x sigma jitter ycf true = .ok K'
+      ∧ toM K' = toM (gram cov x x) + jitter • (1 : Matrix (Fin n) (Fin n) ℝ) :=
+  ⟨stabilize (gram cov x x) jitter, rfl, toM_stabilize _ _⟩
+
+/-- Scalar noise level: `N = max(σ², jitter) · I` (the clamp is per diagonal entry). -/
+theorem noise_scalar (cov : Cov ℝ) (x : Mat ℝ n d) (σ jitter : ℝ) :
+    ∃ K', fullSystem cov x (.scalar σ) jitter Option.none false = .ok K'
+      ∧ toM K' = toM (gram cov x x) + (max (σ * σ) jitter) • (1 : Matrix (Fin n) (Fin n) ℝ) := by
+  unfold fullSystem
+  simp only [Bool.false_eq_true, if_false, sigmaToYCovFactor, sigmaFactor]
+  unfold addVariance
+  simp only [ne_eq, not_true_eq_false, if_false]
+  refine ⟨_, rfl, ?_⟩
+  ext i k
+  simp only [toM_apply, el_ofFn, i.isLt, k.isLt, and_self, if_true, Matrix.add_apply,
+    Matrix.smul_apply, Matrix.one_apply, smul_eq_mul]
+  by_cases hik : i = k
+  · subst hik
+    simp only [if_true, mul_one]
+    rw [sigmaFactor_scalar_gramEl σ i i i.isLt i.isLt]
+    simp only [if_true]
+    by_cases hlt : σ * σ < jitter
+    · simp only [hlt, if_true, max_eq_right (le_of_lt hlt)]; ring
+    · simp only [hlt, if_false, max_eq_left (not_lt.mp hlt)]; ring
+  · have hne : ¬ (i.val = k.val) := fun hh => hik (Fin.ext hh)
+    simp only [hne, hik, if_false, mul_zero, add_zero]
+    rw [sigmaFactor_scalar_gramEl σ i k i.isLt k.isLt]
+    simp [hne]
+
+/-- Zero noise (or any `σ² < jitter`): the regulariser is exactly `jitter`. -/
+theorem noise_below_jitter (cov : Cov ℝ) (x : Mat ℝ n d) (σ jitter : ℝ) (h : σ * σ ≤ jitter) :
+    ∃ K', fullSystem cov x (.scalar σ) jitter Option.none false = .ok K'
+      ∧ toM K' = toM (gram cov x x) + jitter • (1 : Matrix (Fin n) (Fin n) ℝ) := by
+  obtain ⟨K', h1, h2⟩ := noise_scalar cov x σ jitter
+  exact ⟨K', h1, by rw [h2, max_eq_right h]⟩
+
+/-- Per-cell noise vector: `N = diag(max(σᵢ², jitter))`. -/
+theorem noise_vector (cov : Cov ℝ) (x : Mat ℝ n d) (σ : Vector ℝ n) (jitter : ℝ) :
+    ∃ K', fullSystem cov x (.vec σ) jitter Option.none false = .ok K'
+      ∧ toM K' = toM (gram cov x x)
+          + Matrix.diagonal (fun i : Fin n => max (σ.nth i * σ.nth i) jitter) := by
+  unfold fullSystem
+  simp only [Bool.false_eq_true, if_false, sigmaToYCovFactor, sigmaFactor]
+  unfold addVariance
+  simp only [ne_eq, not_true_eq_false, if_false]
+  refine ⟨_, rfl, ?_⟩
+  ext i k
+  simp only [toM_apply, el_ofFn, i.isLt, k.isLt, and_self, if_true, Matrix.add_apply,
+    Matrix.diagonal_apply]
+  by_cases hik : i = k
+  · subst hik
+    simp only [if_true]
+    rw [sigmaFactor_vec_gramEl σ i i i.isLt i.isLt]
+    simp only [if_true]
+    by_cases hlt : σ.nth i * σ.nth i < jitter
+    · simp only [hlt, if_true, max_eq_right (le_of_lt hlt)]; ring
+    · simp only [hlt, if_false, max_eq_left (not_lt.mp hlt)]; ring
+  · have hne : ¬ (i.val = k.val) := fun hh => hik (Fin.ext hh)
+    simp only [hne, hik, if_false, add_zero]
+    rw [sigmaFactor_vec_gramEl σ i k i.isLt k.isLt]
+    simp [hne]
+
+/-- Neither a noise level nor "values are the mean": refused (`ValueError`). -/
+theorem noise_missing_refused (cov : Cov ℝ) (x : Mat ℝ n d) (y : Mat ℝ n c) (mu jitter : ℝ)
+    (withUnc : Bool) :
+    fullCondInit cov x y mu Option.none .none jitter Option.none false withUnc
+      = .error .noUncertaintyInput := by
+  simp [fullCondInit, condL, sigmaToYCovFactor]
+
+/-! ### evaluation: prior mean plus cross-covariances times weights, row by row -/
+
+/-- `predictor(x*) = mu + Σⱼ k(x*, basisⱼ) · wⱼ`. -/
+theorem mean_formula (s : CondState ℝ m d c) (xq : List ℝ) (col : Nat) :
+    s.mean1 xq col = s.mu + ∑ j ∈ Finset.range m, s.cov.k xq (s.xb.row j) * s.weights.el j col := by
+  unfold CondState.mean1; rw [nsum_eq_sum]
+
+/-- Row `i` of a batch prediction is the single-point prediction at row `i`. -/
+theorem mean_rowwise (s : CondState ℝ m d c) (Xq : Mat ℝ q d) (i col : Nat) (hi : i < q) (hc : col < c) :
+    (s.mean Xq).el i col = s.mean1 (Xq.row i) col := by
+  simp [CondState.mean, hi, hc]
+
+/-- The value of a query row does not depend on which other rows are in the batch or their order:
+    equal rows in two batches (of any sizes) get equal values. -/
+theorem mean_batch_independent (s : CondState ℝ m d c) {q' : Nat} (Xq : Mat ℝ q d) (Xq' : Mat ℝ q' d)
+    (i i' col : Nat) (hi : i < q) (hi' : i' < q') (hc : col < c) (hrow : Xq.row i = Xq'.row i') :
+    (s.mean Xq).el i col = (s.mean Xq').el i' col := by
+  rw [mean_rowwise s Xq i col hi hc, mean_rowwise s Xq' i' col hi' hc, hrow]
+
+/-! ### DTC (inducing points) -/
+
+/-- The DTC regulariser: `jitter·I` when the values are the mean, otherwise the floored noise of
+    the (landmark-sized) sigma factor. -/
+noncomputable def dtcNoise (m : Nat) (sigma : Sigma ℝ m) (jitter : ℝ) (ycf : Option (AnyMat ℝ))
+    (yIsMean : Bool) : Except CondErr (Matrix (Fin m) (Fin m) ℝ) :=
+  if yIsMean then .ok (jitter • (1 : Matrix (Fin m) (Fin m) ℝ))
+  else
+    match sigmaToYCovFactor sigma ycf with
+    | .error e => .error e
+    | .ok F => if F.r = m then .ok (noiseOf m F jitter) else .error .internal
+
+theorem lmLLB_spec {AAt : Mat ℝ m m} {sigma : Sigma ℝ m} {jitter : ℝ} {ycf : Option (AnyMat ℝ)}
+    {yIsMean : Bool} {LLB : Mat ℝ m m} {y' : Option (AnyMat ℝ)}
+    (h : lmLLB AAt sigma jitter ycf yIsMean = .ok (LLB, y')) :
+    ∃ N, dtcNoise m sigma jitter ycf yIsMean = .ok N ∧ toM LLB = toM AAt + N ∧ N.IsSymm := by
+  unfold lmLLB at h
+  unfold dtcNoise
+  by_cases hm : yIsMean
+  · simp only [hm, if_true] at h ⊢
+    have := Except.ok.inj h
+    have hL : LLB = stabilize AAt jitter := (Prod.mk.inj this).1.symm
+    subst hL
+    exact ⟨_, rfl, toM_stabilize _ _, (Matrix.isSymm_one).smul jitter⟩
+  · simp only [hm, if_false, Bool.false_eq_true] at h ⊢
+    split at h
+    · cases h
+    · rename_i F hF
+      rw [hF]
+      simp only
+      split at h
+      · cases h
+      · rename_i K' hK'
+        have := Except.ok.inj h
+        have hL : LLB = K' := (Prod.mk.inj this).1.symm
+        subst hL
+        obtain ⟨hr, hK⟩ := addVariance_some _ F jitter hK'
+        simp only [hr, if_true]
+        exact ⟨_, rfl, hK, noiseOf_symm m F jitter⟩
+
+/-- **DTC.** The weights of `_LandmarksConditional` solve the inducing-point normal equations
+    `(L N Lᵀ + K_uf K_fu) · W = K_uf (Y − mu)` where `L Lᵀ = K_uu + jitter·I` and `N` is the
+    regulariser (`N = s·I` gives the textbook `s·K̃_uu + K_uf K_fu`). -/
+theorem dtc_weights_solve {cov : Cov ℝ} {x : Mat ℝ n d} {xu : Mat ℝ m d} {y : Mat ℝ n c} {mu : ℝ}
+    {sigma : Sigma ℝ m} {jitter : ℝ} {ycf : Option (AnyMat ℝ)} {yIsMean withUnc : Bool}
+    {s : CondState ℝ m d c}
+    (h : lmCondInit cov x xu y mu sigma jitter ycf yIsMean withUnc = .ok s) :
+    ∃ (L : Mat ℝ m m) (N : Matrix (Fin m) (Fin m) ℝ),
+      toM L * (toM L)ᵀ = toM (gram cov xu xu) + jitter • (1 : Matrix (Fin m) (Fin m) ℝ)
+      ∧ dtcNoise m sigma jitter ycf yIsMean = .ok N
+      ∧ (toM L * N * (toM L)ᵀ + toM (gram cov xu x) * (toM (gram cov xu x))ᵀ) * toM s.weights
+          = toM (gram cov xu x) * toM (residual y mu)
+      ∧ s.xb = xu ∧ s.mu = mu ∧ s.cov = cov := by
+  unfold lmCondInit at h
+  split at h
+  · cases h
+  · rename_i L hL
+    obtain ⟨Kuu', hKuu', hchol⟩ := getL_spec hL
+    rw [addVariance_none] at hKuu'
+    have hKuu : Kuu' = stabilize (gram cov xu xu) jitter := (Except.ok.inj hKuu').symm
+    subst hKuu
+    have hsymU : (toM (stabilize (gram cov xu xu) jitter)).IsSymm :=
+      addVariance_symm cov xu jitter Option.none (addVariance_none _ _)
+    have hLLt := hchol.mul_transpose hsymU
+    rw [toM_stabilize] at hLLt
+    simp only at h
+    split at h
+    · cases h
+    · rename_i LLB y' hLLB
+      obtain ⟨N, hN, hLLBeq, hNsym⟩ := lmLLB_spec hLLB
+      split at h
+      · cases h
+      · rename_i LB hLB
+        have hcholB := chol?_spec hLB
+        set A := solveLowerM L (gram cov xu x) with hA
+        have hLA : toM L * toM A = toM (gram cov xu x) := solveLowerM_mul hchol.lowerNonsing _
+        have hAAt : toM (matMulT A A) = toM A * (toM A)ᵀ := matMulT_toM A A
+        have hsymB : (toM LLB).IsSymm := by
+          rw [hLLBeq, hAAt]
+          have hAA : (toM A * (toM A)ᵀ).IsSymm := by
+            rw [Matrix.IsSymm, Matrix.transpose_mul, Matrix.transpose_transpose]
+          exact hAA.add hNsym
+        set W := lmWeights L LB A (residual y mu) with hW
+        have hz : toM LLB * toM (choSolveM LB (matMul A (residual y mu)))
+            = toM A * toM (residual y mu) := by
+          rw [choSolveM_mul hcholB hsymB, matMul_toM]
+        have hLtW : (toM L)ᵀ * toM W = toM (choSolveM LB (matMul A (residual y mu))) :=
+          solveUpperTM_mul hchol.lowerNonsing _
+        have key : (toM L * N * (toM L)ᵀ + toM (gram cov xu x) * (toM (gram cov xu x))ᵀ) * toM W
+            = toM (gram cov xu x) * toM (residual y mu) := by
+          rw [← hLA, Matrix.transpose_mul]
+          calc (toM L * N * (toM L)ᵀ + toM L * toM A * ((toM A)ᵀ * (toM L)ᵀ)) * toM W
+              = toM L * ((toM A * (toM A)ᵀ + N) * ((toM L)ᵀ * toM W)) := by
+                simp only [Matrix.add_mul, Matrix.mul_add, Matrix.mul_assoc]
+                rw [add_comm]
+            _ = toM L * (toM LLB * toM (choSolveM LB (matMul A (residual y mu)))) := by
+                rw [hLtW, hLLBeq, hAAt]
+            _ = toM L * toM A * toM (residual y mu) := by rw [hz, Matrix.mul_assoc]
+        refine ⟨L, N, hLLt, hN, ?_⟩
+        split at h
+        · have hs := Except.ok.inj h; subst hs; exact ⟨key, rfl, rfl, rfl⟩
+        · split at h
+          · cases h
+          · have hs := Except.ok.inj h; subst hs; exact ⟨key, rfl, rfl, rfl⟩
+
+/-! ### Cholesky-latent formulation -/
+
+/-- **Latent form.** The weights of `_LandmarksConditionalCholesky` solve `Lᵀ · W = Z` for the
+    factor in use (given, or computed as the Cholesky factor of the regularised landmark kernel). -/
+theorem latent_weights_solve_given {cov : Cov ℝ} {xu : Mat ℝ m d} {z : Mat ℝ m c} {mu : ℝ} {nObs : Nat}
+    {L : Mat ℝ m m} (hL : LowerNonsing L) {sigma : Sigma ℝ m} {jitter : ℝ} {yIsMean : Bool}
+    {s : CondState ℝ m d c}
+    (h : lmCholCondInit cov xu z mu nObs (some L) sigma jitter yIsMean false = .ok s) :
+    (toM L)ᵀ * toM s.weights = toM z ∧ s.nObs = nObs ∧ s.xb = xu := by
+  unfold lmCholCondInit condL at h
+  simp only [Bool.not_false, if_true] at h
+  have hs := Except.ok.inj h; subst hs
+  exact ⟨solveUpperTM_mul hL z, rfl, rfl⟩
+
+theorem latent_weights_solve {cov : Cov ℝ} {xu : Mat ℝ m d} {z : Mat ℝ m c} {mu : ℝ} {nObs : Nat}
+    {sigma : Sigma ℝ m} {jitter : ℝ} {yIsMean withUnc : Bool} {s : CondState ℝ m d c}
+    (h : lmCholCondInit cov xu z mu nObs Option.none sigma jitter yIsMean withUnc = .ok s) :
+    ∃ (L K' : Mat ℝ m m), fullSystem cov xu sigma jitter Option.none yIsMean = .ok K'
+      ∧ toM L * (toM L)ᵀ = toM K'
+      ∧ (toM L)ᵀ * toM s.weights = toM z ∧ s.nObs = nObs ∧ s.xb = xu := by
+  unfold lmCholCondInit at h
+  split at h
+  · cases h
+  · rename_i L s' y' hc
+    obtain ⟨K', hK', hchol, hsym⟩ := condL_none_spec hc
+    have hw : (toM L)ᵀ * toM (solveUpperTM L z) = toM z := solveUpperTM_mul hchol.lowerNonsing z
+    refine ⟨L, K', hK', hchol.mul_transpose hsym, ?_⟩
+    simp only at h
+    split at h
+    · have hs := Except.ok.inj h; subst hs; exact ⟨hw, rfl, rfl⟩
+    · split at h
+      · cases h
+      · have hs := Except.ok.inj h; subst hs; exact ⟨hw, rfl, rfl⟩
+
+/-! ### family dispatch -/
+
+theorem dispatch_full (pre : Option Nat) : dispatchFamily Option.none pre = .full := rfl
+
+theorem dispatch_cholesky (mm : Nat) : dispatchFamily (some mm) (some mm) = .landmarksCholesky := by
+  simp [dispatchFamily]
+
+theorem dispatch_landmarks (mm r : Nat) (h : r ≠ mm) : dispatchFamily (some mm) (some r) = .landmarks := by
+  simp [dispatchFamily, h]
+
+theorem dispatch_landmarks_nopre (mm : Nat) : dispatchFamily (some mm) Option.none = .landmarks := rfl
+
+/-! ### non-vacuity: a concrete 1-point full GP is accepted -/
+
+example : LowerNonsing (n := 1) (Mat.ofFn fun _ _ => (2:ℝ)) :=
+  ⟨fun i j hij => by
+      rcases Nat.lt_or_ge i 1 with hi | hi
+      · have : ¬ j < 1 := by omega
+        simp [hi, this]
+      · simp [Nat.not_lt.mpr hi],
+   fun i hi => by simp [hi]⟩
+
 end Mellon.C01
